@@ -82,7 +82,14 @@ Pop(x) ==
 RECURSIVE TC(_)
 TC(R) == LET N == R \cup {<<a, c>> \in tasks \X tasks : \E b \in tasks : <<a,b>> \in R /\ <<b,c>> \in R}
          IN IF N = R THEN R ELSE TC(N)
-Acyclic == \A t \in tasks : <<t,t>> \notin TC(edges)
+AcyclicTC == LET tc == TC(edges) IN \A t \in tasks : <<t,t>> \notin tc
+\* the same predicate, computed by peeling off source nodes (a finite digraph is acyclic iff this empties it); this is what the
+\* actions use (the closure above is cubic in the number of tasks and dominated trace validation); AcyclicAgree is model-checked
+RECURSIVE Peel(_, _)
+Peel(N, Ed) == LET src == {t \in N : \A e \in Ed : e[2] # t}
+               IN IF src = {} THEN N ELSE Peel(N \ src, {e \in Ed : e[1] \notin src})
+Acyclic == Peel(tasks, {e \in edges : e[1] \in tasks /\ e[2] \in tasks}) = {}
+AcyclicAgree == Acyclic <=> AcyclicTC
 
 Sort ==
   /\ phase = "resolving" /\ queue = EmptyBag
